@@ -309,3 +309,18 @@ def run_c_property(pid, tier, seed, R, funcs, lemmas=(), concretise=None, truste
         extra(rep, tu)
     return finish(rep, level=level, trusted_base=list(BASE_TRUSTED) + list(trusted), concretise=concretise,
                   technique=technique, explanation=explanation)
+
+
+def check_lean(rep, relpath):
+    """re-check a lemma file with lean (Mathlib); errors are checker errors, never verdicts"""
+    import subprocess
+    t = time.time()
+    try:
+        p = subprocess.run(['lean', os.path.join(VERIF, relpath)], capture_output=True, text=True, timeout=1800,
+                           cwd=VERIF)
+        ok = p.returncode == 0 and 'error' not in p.stdout and 'sorry' not in p.stdout
+        rep.lemmas.append({'file': relpath, 'checker': 'lean 4 + Mathlib', 'ok': ok, 'seconds': round(time.time() - t, 1)})
+        if not ok:
+            rep.errors.append("lean rejected %s: %s" % (relpath, (p.stdout + p.stderr)[-400:]))
+    except Exception as e:
+        rep.errors.append("lean could not be run on %s: %r" % (relpath, e))
